@@ -96,7 +96,9 @@ func writeFileAtomic(filename string, data []byte, perm os.FileMode) error {
 // validMID reports whether the message ID is safe to use as a file name inside
 // the mailbox. MIDs are chosen by the remote station.
 func validMID(mid string) bool {
-	return mid != "" && mid != "." && mid != ".." && !strings.ContainsAny(mid, "/\\\x00")
+	// A leading dot would make the message file a hidden file, which is never listed when a
+	// folder is loaded (hidden files are the temporary files of writeFileAtomic).
+	return mid != "" && mid[0] != '.' && !strings.ContainsAny(mid, "/\\\x00")
 }
 
 func (h *DirHandler) ProcessInbound(msgs ...*fbb.Message) (err error) {
